@@ -78,16 +78,60 @@ def run(cx):
         ok = bool(rec) and all(adds[0].lineno < c.lineno for c in rec) and all(norm(c.args[-1]) == sset for c in rec)
         cx.ob("R01a", rec[0] if rec else fcp, ok, "nested factorisation shares the same suffix set" if ok else "nested factorisation does not receive the same suffix set after registration")
     # helper last in the group production
+    def _seq_tokens(e):
+        """a concatenation of sequences as a token list: `tuple(list(a) + [x])`, `a + (x,)`, `(*a, x)` all read ['*a', 'x']"""
+        if isinstance(e, ast.Call) and isinstance(e.func, ast.Name) and e.func.id in ("tuple", "list") and len(e.args) == 1 and not e.keywords:
+            return _seq_tokens(e.args[0])
+        if isinstance(e, ast.BinOp) and isinstance(e.op, ast.Add):
+            a_, b_ = _seq_tokens(e.left), _seq_tokens(e.right)
+            return None if a_ is None or b_ is None else a_ + b_
+        if isinstance(e, (ast.Tuple, ast.List)):
+            out_ = []
+            for x_ in e.elts:
+                if isinstance(x_, ast.Starred):
+                    t_ = _seq_tokens(x_.value)
+                    if t_ is None:
+                        return None
+                    out_ += t_
+                else:
+                    out_.append(norm(x_))
+            return out_
+        if isinstance(e, ast.Name):
+            return ["*" + e.id]
+        return None
     gp = [v for _, v in assignments(fcp, "group_prod_rule") if v is not None]
-    ok = len(gp) == 1 and isinstance(gp[0], ast.Call) and call_name(gp[0]) == "ProdRule" and norm(gp[0].args[1]) == f"tuple(list(common_prefix) + [{hname}])" and norm(gp[0].args[0]) == params(fcp)[1]
+    ok = len(gp) == 1 and isinstance(gp[0], ast.Call) and call_name(gp[0]) == "ProdRule" and _seq_tokens(gp[0].args[1]) == ["*common_prefix", hname] and norm(gp[0].args[0]) == params(fcp)[1]
     cx.ob("R01a", gp[0] if gp else fcp, ok, "group production = common prefix + [helper] (helper last) for the original symbol" if ok else "the helper symbol is not the last symbol of the group production")
     # suffix productions: the remainders after the common prefix, one per original production, in order, owned by the helper
     sp = [v for _, v in assignments(fcp, "suffix_prod_rules") if v is not None]
-    ok = len(sp) == 1 and isinstance(sp[0], ast.ListComp) and not sp[0].generators[0].ifs and norm(sp[0].generators[0].iter) == params(fcp)[3]
+    ok = len(sp) == 1 and isinstance(sp[0], ast.ListComp) and len(sp[0].generators) == 1 and not sp[0].generators[0].ifs
     if ok:
+        from sa.guards import expand_at as _ea, xnorm_at as _xna, reaching_def as _rd2
+        g_ = sp[0].generators[0]
+        it_, tv_ = g_.iter, g_.target
+        if isinstance(it_, ast.Call) and call_name(it_) == "enumerate" and len(it_.args) == 1 and isinstance(tv_, ast.Tuple) and len(tv_.elts) == 2:
+            it_, tv_ = it_.args[0], tv_.elts[1]         # numbered in the original order
+        at_ = enclosing_stmt(sp[0])
+        it_x = it_
+        if isinstance(it_, ast.Name):
+            from sa.guards import reaching_def as _rd
+            r_ = _rd(it_.id, at_, calls=True, containers=True)
+            it_x = r_[0] if r_ is not None else it_
+        ov = norm(tv_)
+        prod_ = None
+        if norm(it_x) == params(fcp)[3]:
+            prod_ = f"{ov}.production"                  # iterating the rules
+        elif isinstance(it_x, ast.ListComp) and len(it_x.generators) == 1 and not it_x.generators[0].ifs and norm(it_x.generators[0].iter) == params(fcp)[3] \
+                and norm(it_x.elt) == f"{norm(it_x.generators[0].target)}.production":
+            prod_ = ov                                   # iterating the productions of the rules
         c = sp[0].elt
-        ov = norm(sp[0].generators[0].target)
-        ok = isinstance(c, ast.Call) and call_name(c) == "ProdRule" and norm(c.args[0]) == hname and norm(c.args[1]) == f"tuple({ov}.production[len(common_prefix):])"
+        a1_ = c.args[1] if isinstance(c, ast.Call) and len(c.args) > 1 else None
+        while isinstance(a1_, ast.Call) and isinstance(a1_.func, ast.Name) and a1_.func.id in ("tuple", "list") and len(a1_.args) == 1:
+            a1_ = a1_.args[0]
+        ok = prod_ is not None and isinstance(c, ast.Call) and call_name(c) == "ProdRule" and norm(c.args[0]) == hname and isinstance(a1_, ast.Subscript) \
+            and isinstance(a1_.slice, ast.Slice) and a1_.slice.upper is None and a1_.slice.step is None and a1_.slice.lower is not None and norm(a1_.value) == prod_ \
+            and (norm(a1_.slice.lower) == "len(common_prefix)" or isinstance(a1_.slice.lower, ast.Name) and (_rd2(a1_.slice.lower.id, at_, calls=True) or (None,))[0] is not None
+                 and norm(_rd2(a1_.slice.lower.id, at_, calls=True)[0]) == "len(common_prefix)")
     cx.ob("R01a", sp[0] if sp else fcp, ok, "one suffix production per original production: its symbols after the common prefix" if ok else "suffix productions are not the remainders of every original production")
     # _factorize_productions: paired removal, for merged suffixes only
     dels = [n for n in walk_local(fp) if isinstance(n, ast.Delete)]
